@@ -605,6 +605,12 @@ pub struct EncodedChunk {
 
 /// aws-chunked encoding of `chunks` (the final zero-length chunk is appended)
 pub fn v4_encode_chunks(p: &V4Params, seed_signature: &str, chunks: &[Vec<u8>]) -> (Vec<u8>, Vec<EncodedChunk>) {
+    v4_encode_chunks_padded(p, seed_signature, chunks, 0)
+}
+
+/// `pad`: the size field of every chunk is written with at least that many hex digits (leading zeros; hex numbers
+/// with leading zeros denote the same size)
+pub fn v4_encode_chunks_padded(p: &V4Params, seed_signature: &str, chunks: &[Vec<u8>], pad: usize) -> (Vec<u8>, Vec<EncodedChunk>) {
     let mut out = Vec::new();
     let mut metas = Vec::new();
     let mut prev = seed_signature.to_owned();
@@ -613,7 +619,7 @@ pub fn v4_encode_chunks(p: &V4Params, seed_signature: &str, chunks: &[Vec<u8>]) 
     for data in all {
         let sig = v4_chunk_signature(p, &prev, data);
         let start = out.len();
-        let size_hex = format!("{:x}", data.len());
+        let size_hex = format!("{:0pad$x}", data.len());
         out.extend_from_slice(size_hex.as_bytes());
         let size_hex_end = out.len();
         out.extend_from_slice(b";chunk-signature=");
